@@ -135,3 +135,27 @@ theorem stdEqual_iff_eq (a b : Bytes) (h : a.length = b.length) : Model.stdEqual
   · intro e; subst e; exact List.prefix_refl _
 
 end TlxVerif.C18
+
+namespace TlxVerif.C18
+open Spec
+
+/-! ### `compare` on cons cells (used by C19's case-insensitive comparisons) -/
+
+theorem compare_nil_nil : Spec.compare [] [] = 0 := by decide
+theorem compare_nil_cons (b : UInt8) (bs : Bytes) : Spec.compare [] (b :: bs) = -1 := by
+  simp [Spec.compare, cmpBytes]
+theorem compare_cons_nil (a : UInt8) (as : Bytes) : Spec.compare (a :: as) [] = 1 := by
+  simp [Spec.compare, cmpBytes]
+
+theorem compare_cons_same (c : UInt8) (a b : Bytes) : Spec.compare (c :: a) (c :: b) = Spec.compare a b := by
+  simp only [Spec.compare, cmpBytes, UInt8.lt_irrefl, if_false, List.length_cons, Nat.add_lt_add_iff_right,
+    Nat.add_right_cancel_iff]
+
+theorem compare_cons_lt (x y : UInt8) (a b : Bytes) (h : x < y) : Spec.compare (x :: a) (y :: b) = -1 := by
+  simp [Spec.compare, cmpBytes, h]
+
+theorem compare_cons_gt (x y : UInt8) (a b : Bytes) (h : y < x) : Spec.compare (x :: a) (y :: b) = 1 := by
+  have : ¬ x < y := fun h' => UInt8.lt_irrefl _ (UInt8.lt_trans h h')
+  simp [Spec.compare, cmpBytes, h, this]
+
+end TlxVerif.C18
